@@ -3,18 +3,24 @@ Driver for the conversion family `cv`: a postfix stack program per line, execute
 `CtrlVerif.Model.Convert` over `ℚ` (the terminal `frd` instruction over `ℚ(i)`).  Trusted glue.
 
 line  := "cv" "X" <cnt> {h ω re im}  prog
-prog  := leaf | prog step | prog prog "op" (add|sub|mul) | prog "frd" n ω… kw
+prog  := leaf | prog step | prog prog "op" (add|sub|mul) | prog "frd" n ω… kw | prog cfg
 leaf  := "SS" names n p m dt A… B… C… D…
+       | "SSK" flag names n p m dt A… B… C… D…      (`ss(A, B, C, D, dt, remove_useless_states=flag)`)
        | "TF" names p m dt (num den)…
        | "ZPK" names dt nz z… np p… k
 names := name nin in… nout out…
-step  := ("tf" | "ss2tf" | "ss") kw | "tfdata" | "ssdata"
+step  := ("tf" | "ss2tf" | "ss") kw | "ssk" flag kw | "tfdata" | "ss2tf4" | "ssdata"
 kw    := ("-" | "=" name) ("-" | "=" nin in…) ("-" | "=" nout out…)
+flag  := "-" | "1" | "0"                              (keyword `remove_useless_states` absent / True / False)
+cfg   := "cfg" ("on" | "off" | "legacy" | "reset")    (`set_defaults('statesp', remove_useless_states=…)`,
+                                                       `use_legacy_defaults('0.8.4')`, `reset_defaults()`)
+The configured default of `remove_useless_states` is part of the run state (`g`, initially off);
+every step / operator / leaf is executed by the `…R g` functions of `Model/ConvertRus.lean`.
 -/
 import CtrlVerif.Driver.SS
 import CtrlVerif.Driver.TF
 import CtrlVerif.Driver.FRD
-import CtrlVerif.Model.Convert
+import CtrlVerif.Model.ConvertRus
 
 namespace CtrlVerif.Driver.Conv
 
@@ -55,10 +61,16 @@ def showObj (x : Obj Q) : String :=
         ++ showMat G.sys.C ++ " " ++ showMat G.sys.D
   | .tf G => "tf " ++ showNames x.names ++ " " ++ (TF.showTF G).drop 3
 
-def pLeafSS : P (Obj Q) := do
+def pFlag : P (Option Bool) := do
+  let a ← tok
+  if a == "-" then pure none else if a == "1" then pure (some true)
+  else if a == "0" then pure (some false) else throw s!"flag:{a}"
+
+/-- `ss(A, B, C, D, dt, …)`: one constructor call with the keyword `flag` or the default `g`. -/
+def pLeafSS (g : Bool) (flag : Option Bool) : P (Obj Q) := do
   let μ ← pNames
   let G ← SS.pLeaf
-  pure ⟨.ss (SS.force G), μ⟩
+  pure ⟨.ss (SS.force (construct (flag.getD g) (SS.force G))), μ⟩
 
 def pLeafTF : P (Except Err (Obj Q)) := do
   let μ ← pNames
@@ -89,35 +101,47 @@ def tableOkFor (tab : FRD.Table) (dt : Dt) (ws : List ℚ) : Bool :=
   | .dtrue => ws.all fun w => (tab.lookup (1, w)).isSome
   | _ => true
 
-partial def run (tab : FRD.Table) (stack : List (Obj Q)) : P String := do
+partial def run (tab : FRD.Table) (g : Bool) (stack : List (Obj Q)) : P String := do
   if (← atEnd) then
     match stack with
     | [x] => pure ("ok " ++ showObj x)
     | _ => throw "stack"
   else
     let t ← tok
-    let doStep (st : Step) : P String := do
+    let doStep (st : StepR) : P String := do
       match stack with
       | x :: rest =>
-        if !chainCertOK [st] x then pure "model-error cert" else
-        match applyStep st x with
-        | .ok y => run tab (forceObj y :: rest)
+        if !stepCertOKR g st x.rep then pure "model-error cert" else
+        match applyStepR g st x with
+        | .ok y => run tab g (forceObj y :: rest)
         | .error e => pure (showErr e)
       | _ => throw "stack"
     match t with
-    | "SS" => let x ← pLeafSS; run tab (x :: stack)
+    | "SS" => let x ← pLeafSS g none; run tab g (x :: stack)
+    | "SSK" => let fl ← pFlag; let x ← pLeafSS g fl; run tab g (x :: stack)
+    | "cfg" =>
+      let e ← tok
+      let ev ← match e with
+        | "on" => pure (CfgEv.setRus true)
+        | "off" => pure (CfgEv.setRus false)
+        | "legacy" => pure CfgEv.legacy
+        | "reset" => pure CfgEv.reset
+        | _ => throw s!"cfg:{e}"
+      run tab (ev.apply g) stack
     | "TF" =>
       match (← pLeafTF) with
-      | .ok x => run tab (x :: stack)
+      | .ok x => run tab g (x :: stack)
       | .error e => pure (showErr e)
     | "ZPK" =>
       match (← pLeafZPK) with
-      | .ok x => run tab (x :: stack)
+      | .ok x => run tab g (x :: stack)
       | .error e => pure (showErr e)
     | "tf" => let kw ← pKw; doStep (.tf kw)
     | "ss2tf" => let kw ← pKw; doStep (.ss2tf kw)
-    | "ss" => let kw ← pKw; doStep (.ss kw)
+    | "ss" => let kw ← pKw; doStep (.ss kw none)
+    | "ssk" => let fl ← pFlag; let kw ← pKw; doStep (.ss kw fl)
     | "tfdata" => doStep .tfdata
+    | "ss2tf4" => doStep .ss2tf4
     | "ssdata" => doStep .ssdata
     | "op" =>
       let o ← tok
@@ -128,9 +152,9 @@ partial def run (tab : FRD.Table) (stack : List (Obj Q)) : P String := do
         | _ => throw s!"op:{o}"
       match stack with
       | y :: x :: rest =>
-        if !mixedCertOK op x y then pure "model-error cert" else
-        match mixed op x y with
-        | .ok r => run tab (forceObj r :: rest)
+        if !mixedCertOKR g op x y then pure "model-error cert" else
+        match mixedR g op x y with
+        | .ok r => run tab g (forceObj r :: rest)
         | .error e => pure (showErr e)
       | _ => throw "stack"
     | "frd" =>
@@ -150,7 +174,7 @@ partial def run (tab : FRD.Table) (stack : List (Obj Q)) : P String := do
     | _ => throw s!"tok:{t}"
 
 def handle (toks : List String) : String :=
-  match (do let tab ← FRD.pTable; run tab []).run toks with
+  match (do let tab ← FRD.pTable; run tab false []).run toks with
   | .ok (s, _) => s
   | .error e => s!"bad-op {e}"
 
